@@ -35,7 +35,8 @@ def optScore (t : Table) (n : Nat) : Int :=
 
 /-- all minimisers. -/
 def optima (t : Table) (n : Nat) : List (List Nat) :=
-  (allWeakOrders n).filter fun v => scoreN t v == optScore t n
+  let o := optScore t n
+  (allWeakOrders n).filter fun v => scoreN t v == o
 
 /-! ### projection on a component -/
 
